@@ -10,7 +10,7 @@ from ..engines.seqsim import World, Violation, ABSENT
 ID = "C11"
 ENGINE = "seqsim"
 LEVEL = "exploration"
-RUNS = {"quick": 40000, "thorough": 300000}
+RUNS = {"quick": 40000 + 6 * 2 * 900, "thorough": 300000 + 6 * 2 * 900}
 CHUNK = 250
 RULE = ("(entry point x target position x invalid item kind x position of the invalid item inside an otherwise valid "
         "argument, depth 0-3) for all 12 JSON classes and the Redis/MongoDB/Zarr stub-store classes, after a seeded "
@@ -254,7 +254,94 @@ def gen_bad(w, rg):
     return st, (kn, depth, st["name"], len(h.path), h.kind)
 
 
+# ---- threaded part: validation is not skipped under ANY interleaving ----------------------------------------------------
+# Type classification and validation use process-wide objects shared by all threads.  For a few fixed pairs (a thread
+# storing perfectly valid nested data into one collection, another thread offering forbidden data to a collection on
+# ANOTHER file) EVERY single pre-emption is enumerated in both directions: the first thread runs k pre-emption points,
+# the other runs to completion, the first resumes.  The forbidden operation must be rejected at every k and neither
+# file may hold anything but its expected content.
+
+TKMAX = 900
+TSCEN = [
+    # family, kind, valid op (T0, file 0), rejected op (T1, file 1)
+    ("JSON", "dict", ("setitem", ["k", {"t": "text", "n": [1, {"m": "x"}], "f": 2.5}]), ("setitem", ["bad", {"n": [{"$keydict": [[987654, 2]]}]}])),
+    ("JSON", "dict", ("update", [{"u": "text", "v": {"w": [True, None]}}]), ("setitem", ["bad", {"z": {"$obj": "complex"}}])),
+    ("JSONAttr", "dict", ("setitem", ["k", {"t": "text", "n": {"m": "x"}}]), ("setitem", ["bad", {"in.ner": 1}])),
+    ("JSONAttr", "list", ("append", [{"t": "text", "n": [1, "y"]}]), ("append", [{"a": [{"x.y": 1}]}])),
+    ("BufferedJSON", "list", ("extend", [["text", {"m": "x"}, 3]]), ("append", [{"$obj": "set"}])),
+    ("MemoryBufferedJSON", "dict", ("setdefault", ["k", {"t": ["text", {"m": 1}]}]), ("setitem", ["bad", {"g": 1, "h": {"$keydict": [[{"$none": 0}, 1]]}}])),
+]
+NTSCAN = len(TSCEN) * 2 * TKMAX
+_tpoints = {}
+
+
+def tscan_payload(j):
+    from . import _thr
+    fam, kind, valid, bad = TSCEN[j // (2 * TKMAX)]
+    direction = (j // TKMAX) % 2
+    k = j % TKMAX
+    from ..core.values import Fresh
+    fresh = Fresh()
+    cfg = {"prop": ID, "family": fam, "kind": kind, "wc": False, "threading": True, "oracles": [], "uuid_seed": 11, "opcode": False}
+    pre = [{"t": "new_res", "family": fam, "kind": kind, "init": _thr.init_content(kind, fresh)},
+           {"t": "new_res", "family": fam, "kind": kind, "init": _thr.init_content(kind, fresh)},
+           {"t": "new_obj", "rid": 0, "wc": False}, {"t": "new_obj", "rid": 1, "wc": False}]
+    progs = [[{"h": 0, "name": valid[0], "args": valid[1]}], [{"h": 1, "name": bad[0], "args": bad[1], "rejected": True}]]
+    first = "T0" if direction == 0 else "T1"
+    strat = {"kind": "single", "first": first, "k": k, "order": [first, "T1" if first == "T0" else "T0"]}
+    return {"part": "T", "cfg": cfg, "pre": pre, "progs": progs, "strat": strat, "sched_seed": f"tscan/{j}", "k": k, "first": first}
+
+
+def tscan_run(payload):
+    from . import _thr
+    out = _thr.execute(payload["cfg"], payload["progs"], payload["strat"], payload["sched_seed"], payload["pre"], None)
+    v = None
+    if out["abort"] or out["errors"]:
+        v = {"kind": "harness_thread_error" if out["abort"] != "deadlock" else "deadlock", "msg": f"{out['abort']} {out['errors']} {out.get('deadlock')}"}
+    else:
+        recs = {r["t"]: r for r in out["history"]}
+        bad = recs.get(1)
+        hist = _thr.describe_history(out)
+        if bad is None or "exc" not in bad or not isinstance(bad["exc_obj"].exc, (TypeError, ValueError)):
+            v = {"kind": "accepted_forbidden", "msg": f"forbidden data was not rejected with TypeError/ValueError under this interleaving "
+                 f"({payload['first']} pre-empted after {payload['k']} points): {hist} | final={jsonable(out['final'])}"}
+        elif not same(out["final"][1], out["init"][1]):
+            v = {"kind": "forbidden_data_stored", "msg": f"the rejected operation changed its file: {hist} | final={jsonable(out['final'][1])}"}
+        elif _thr.check_linearizable(out) is None:
+            v = {"kind": "backend!=model", "msg": f"the valid operation next to a rejected one did not take effect as expected: {hist} | final={jsonable(out['final'])}"}
+    return out, v
+
+
+def tscan_points(j):
+    key = j // TKMAX
+    if key not in _tpoints:
+        from ..core.runner import run_isolated
+        p = tscan_payload(key * TKMAX + TKMAX - 1)
+        out, v = run_isolated(tscan_run, (p,), timeout=60)
+        _tpoints[key] = out.get("points", {}).get(p["first"], TKMAX)
+    return _tpoints[key]
+
+
 def run_one(seed, i, tier):
+    if i < NTSCAN:
+        k = i % TKMAX
+        skip = {"viol": None, "probes": {"tscan_skipped": 1}, "stats": {}, "steps": 0, "faults": {}, "evals": 0}
+        if tier == "quick" and (k + seed) % 3:
+            return skip          # quick tier: every third pre-emption index (which third depends on the seed)
+        if k > tscan_points(i) + 2:
+            return skip
+        from ..core.runner import run_isolated
+        payload = tscan_payload(i)
+        out, v = run_isolated(tscan_run, (payload,), timeout=60)
+        res = {"viol": None, "probes": {"tscan_runs": 1, "rejected_input": 1, "preempt_in_op": out["preempt_in_op"]}, "stats": {}, "steps": out["steps"],
+               "faults": {"preemption": out["switches"], "rejected_input": 1}, "evals": 1}
+        if out["preempt_in_op"]:
+            res["sigs"] = [digest([i // TKMAX, (out.get("switch_phases") or [""])[0]])]
+        if v:
+            v.update(index=i, replay=payload)
+            res["viol"] = v
+        return res
+    i -= NTSCAN
     rs = stream(seed, ID, i, "cfg")
     cfg = make_cfg(rs, tier)
     rg = stream(seed, ID, i, "gen")
@@ -292,5 +379,17 @@ def run_one(seed, i, tier):
 
 
 _me = sys.modules[__name__]
-replay = lambda payload: _seq.replay(_me, payload)  # noqa
-minimise = lambda payload, viol: _seq.minimise(_me, payload, viol)  # noqa
+
+
+def replay(payload):
+    if payload.get("part") == "T":
+        from ..core.runner import run_isolated
+        out, v = run_isolated(tscan_run, (payload,), timeout=60)
+        return v
+    return _seq.replay(_me, payload)
+
+
+def minimise(payload, viol):
+    if payload.get("part") == "T":
+        return payload
+    return _seq.minimise(_me, payload, viol)
